@@ -712,8 +712,12 @@ class DBusObjectHandler :
         """
         d = {}
 
+        # only objects strictly beneath objectPath, not siblings sharing a
+        # textual prefix ('/a/bc' is not managed by '/a/b')
+        prefix = objectPath.rstrip('/') + '/'
+
         for p in sorted(self.exports.keys()):
-            if not p.startswith(objectPath) or p == objectPath:
+            if not p.startswith(prefix) or p == objectPath:
                 continue
             o = self.exports[p]
             i = {}
